@@ -135,6 +135,12 @@ func initTables() {
 		psAddrs = append(psAddrs, m)
 		psAddrI[m.String()] = i
 	}
+	if m, err := ma.NewMultiaddr(longAddr); err != nil || m.String() != longAddr || !madns.Matches(m) {
+		fatal("long address does not parse")
+	}
+	if _, err := ma.NewMultiaddr(longLine); err == nil {
+		fatal("long garbage line parses")
+	}
 	for _, s := range slashBad {
 		if _, err := ma.NewMultiaddr(s); err == nil || s[0] != '/' {
 			fatal("slashBad table: %q parses", s)
